@@ -102,7 +102,8 @@ CLAIMS.update({
         "load; C16_no_fault, C16_cache_linearizable_total within RunOKC = RunOK with Cache commands allowed plus 'no other thread touches a cache handle while its load runs'; a checked "
         "run with a hit and a miss inhabits the scope). The freshness theorem assumes that cache handles are not moved between handle indices (NoCacheMove) and that the container is never consumed (never_consumed); "
         "its views see happens-before through program order and the storages only (a lower bound of the real relation: more staleness is allowed than a real execution could show). "
-        "The freshness theorem is proved for stale revalidation alone (step_staleC), not yet combined with the other four weakened loads (fault freedom is). MapCache is not modelled.",
+        "The freshness theorem is proved for stale revalidation alone (C16_cache_fresh_stale over step_staleC) and for all five weakened loads together (C16_cache_fresh_stale3 over "
+        "step_stale3, the function the model driver runs; RunOKS3). MapCache is not modelled.",
    technique="Rocq/Coq proof (instrumented runs, inductive invariant over all schedules) + trace correspondence with a history oracle"),
  "C18": dict(engine="ASModel",
    text="Coq theorems over ASModel with a panicking rcu closure (panic on a chosen attempt, allocation on earlier ones): the unwind is exactly "
